@@ -82,7 +82,8 @@ SOUP = [b'#diffx: version=1.0\n', b'#diffx: encoding=utf-8, version=1.0\n',
 
 def gen_base(rng):
     if rng.chance(0.5):
-        main, ops = gen.gen_history(rng, max_changes=2, max_files=2)
+        main, ops = gen.gen_history(rng, max_changes=rng.choice([2, 2, 5]),
+                                    max_files=2)
         kept, m = gen.filter_ops(main, ops)
         prod = {'id': 'P1', 'kind': 'writer', 'file': 'f1',
                 'main_encoding': main, 'ops': ops}
